@@ -449,7 +449,7 @@ fn free_port() -> u16 {
 }
 
 /// failures of the test rig itself (port taken by another process, cannot connect): never a verdict
-const INFRA: &str = "INFRASTRUCTURE: ";
+pub const INFRA: &str = "INFRASTRUCTURE: ";
 
 /// guest that emits `texts` through the MES write call (stored in DRAM by the harness) and exits
 fn writer_guest(texts: &[Vec<u8>]) -> (Vec<u8>, Vec<(u32, Vec<u8>)>, u32) {
@@ -592,7 +592,24 @@ fn judge_framing(texts: &[Vec<u8>]) -> Result<usize, String> {
 }
 
 /// incoming lines over real TCP, written in odd chunks: the receive worker must deliver them intact, in order
-fn judge_tcp_lines(lines: &[String], chunk_seed: u32) -> Result<(), String> {
+/// Lines are Rust strings; bytes that are *not* valid UTF-8 travel as private-use marker characters
+/// U+E000 + byte and are put on the wire as that single byte. A line containing one is malformed whatever a
+/// receiver makes of the byte (the markers never form a valid token in the reference interpreter either).
+pub fn wire_bytes(l: &str) -> Vec<u8> {
+    let mut out = Vec::with_capacity(l.len());
+    for ch in l.chars() {
+        let c = ch as u32;
+        if (0xe080..=0xe0ff).contains(&c) {
+            out.push((c - 0xe000) as u8);
+        } else {
+            let mut b = [0u8; 4];
+            out.extend_from_slice(ch.encode_utf8(&mut b).as_bytes());
+        }
+    }
+    out
+}
+
+pub fn judge_tcp_lines(lines: &[String], chunk_seed: u32) -> Result<(), String> {
     let kept: Vec<String> = lines.iter().filter(|l| !unspecified_line(l)).cloned().collect();
     let lines: &[String] = &kept;
     let mut m = Model::new();
@@ -642,7 +659,7 @@ fn judge_tcp_lines(lines: &[String], chunk_seed: u32) -> Result<(), String> {
     };
     let mut bytes: Vec<u8> = vec![];
     for l in lines {
-        bytes.extend(l.as_bytes());
+        bytes.extend(wire_bytes(l));
         bytes.push(b'\n');
     }
     bytes.extend(b"cmd:stop\n");
@@ -669,10 +686,20 @@ fn judge_tcp_lines(lines: &[String], chunk_seed: u32) -> Result<(), String> {
     let mut probed = false;
     let mut stop_ignored = false;
     let mut seen: Vec<u8> = vec![];
+    // liveness without the incoming path: the run loop emits a `sync:` message every 2,000,000 states (0.1 s) from
+    // the same loop iteration that polls for lines. Dozens of them after the stop and the probe were sent, and
+    // neither acted on: the loop is alive and the lines are lost (a receiver that died on an earlier line).
+    let mut syncs_after_probe = 0usize;
+    let mut deaf = false;
     loop {
         match stream.read(&mut buf) {
             Ok(0) => break,
-            Ok(n) => seen.extend_from_slice(&buf[..n]),
+            Ok(n) => {
+                if probed {
+                    syncs_after_probe += buf[..n].windows(5).filter(|w| *w == b"sync:").count();
+                }
+                seen.extend_from_slice(&buf[..n])
+            }
             Err(ref e) if e.kind() == std::io::ErrorKind::WouldBlock || e.kind() == std::io::ErrorKind::TimedOut => {}
             Err(_) => break,
         }
@@ -684,6 +711,10 @@ fn judge_tcp_lines(lines: &[String], chunk_seed: u32) -> Result<(), String> {
             stop_ignored = true;
             let _ = stream.write_all(b"cmd:stop\n");
         }
+        if probed && !stop_ignored && syncs_after_probe >= 40 {
+            deaf = true;
+            break;
+        }
         if seen.len() > (1 << 20) {
             let keep = seen.split_off(seen.len() - 64);
             seen = keep;
@@ -692,6 +723,11 @@ fn judge_tcp_lines(lines: &[String], chunk_seed: u32) -> Result<(), String> {
             eprintln!("C18: emulator neither stopped nor echoed a probe within 120 s over TCP: inconclusive");
             std::process::exit(2);
         }
+    }
+    if deaf {
+        // the emulator thread cannot be stopped through the socket any more: leave it behind (it ends with the process)
+        drop(stream);
+        return Err(format!("neither the final cmd:stop nor the probe lines sent over TCP were acted on although the run loop kept running ({} sync messages later): the lines after some earlier line are lost", syncs_after_probe));
     }
     if stop_ignored {
         let _ = h.join();
@@ -952,7 +988,60 @@ pub fn run(ctx: &Ctx) -> i32 {
                 }
             } else {
                 let lines = build_lines(&mut e);
-                let lines: Vec<String> = lines.into_iter().filter(|l| !l.contains('\n')).collect();
+                let mut lines: Vec<String> = lines.into_iter().filter(|l| !l.contains('\n')).collect();
+                // buffer-size class (TCP only: the channel driver hands over whole strings): one ignored line much
+                // longer than any buffer a receiver may use, built so that what follows a power-of-two offset (2^12,
+                // 2^13 = BufReader's default, 2^14, 2^16, 2^17, +/- 1) reads like an effective line of its own.
+                // The whole line has an unknown head, so it must be ignored as a whole.
+                let mut long_lines = 0;
+                if e.chance(1, 3) {
+                    for _ in 0..1 + e.below(2) {
+                        let off = e.pick(&[4096usize, 8192, 16384, 65536, 131072, 65536, 8192]);
+                        let delta = e.pick(&[0i64, 0, 0, -1, 1, 2]);
+                        let tail = match e.below(4) {
+                            0 => "cmd:stop".to_string(),
+                            1 => format!("ioport:{:x}:{:x}", 1 + e.below(10), e.u8()),
+                            _ => format!("u8:{:x}:{:x}", e.pick(&POOL), e.u8()),
+                        };
+                        let n0 = (off as i64 + delta).max(1) as usize;
+                        let mut l = "x".repeat(n0);
+                        l.push_str(&tail);
+                        let at = e.below(lines.len() as u32 + 1) as usize;
+                        lines.insert(at, l);
+                        long_lines += 1;
+                    }
+                }
+                // bytes that are not UTF-8 (a client bug, line noise): such a line is malformed like any other
+                if e.chance(1, 4) {
+                    for _ in 0..1 + e.below(2) {
+                        let good = match e.below(3) {
+                            0 => "cmd:stop".to_string(),
+                            1 => format!("u8:{:x}:{:x}", e.pick(&POOL), e.u8()),
+                            _ => "garbage".to_string(),
+                        };
+                        let bad: String = match e.below(5) {
+                            0 => "\u{e0ff}".into(),
+                            1 => "\u{e0c0}\u{e0af}".into(),      // overlong encoding
+                            2 => "\u{e0e3}\u{e081}".into(),      // truncated three-byte sequence
+                            3 => "\u{e080}".into(),              // lone continuation byte
+                            _ => "\u{e0ed}\u{e0a0}\u{e080}".into(), // surrogate
+                        };
+                        let l = match e.below(3) {
+                            0 => format!("{}{}", bad, good),
+                            1 => format!("{}{}", good, bad),
+                            _ => {
+                                let k = e.below(good.len() as u32 + 1) as usize;
+                                format!("{}{}{}", &good[..k], bad, &good[k..])
+                            }
+                        };
+                        let at = e.below(lines.len() as u32 + 1) as usize;
+                        lines.insert(at, l);
+                    }
+                    st.class("TCP: line containing bytes that are not valid UTF-8");
+                }
+                if long_lines > 0 {
+                    st.class("TCP: ignored line longer than 2^12..2^17 bytes whose tail reads like a command");
+                }
                 match judge_tcp_lines(&lines, e.u32()) {
                     Ok(()) => {
                         st.evaluations += 1;
